@@ -507,6 +507,28 @@ fn gen_hidden_path(r: &mut Rng, fs: &CmdFs, root: &str) -> String {
     p
 }
 
+/// a piece of the string as written that a path normaliser would rewrite (`./`, `//`, `x/../`), with
+/// some of its surroundings: it occurs in the string as given and not in the resolved location
+fn gen_written_piece(r: &mut Rng, given: &str) -> Option<String> {
+    let mut found: Vec<(usize, usize)> = Vec::new();
+    for tok in ["./", "//", "/../", "/./", "../"] {
+        for (i, _) in given.match_indices(tok) {
+            found.push((i, i + tok.len()));
+        }
+    }
+    if found.is_empty() {
+        return None;
+    }
+    let (a, b) = *r.pick(&found);
+    let a = a.saturating_sub(r.below(4) as usize);
+    let b = (b + r.below(4) as usize).min(given.len());
+    if given.is_char_boundary(a) && given.is_char_boundary(b) {
+        Some(given[a..b].to_string())
+    } else {
+        None
+    }
+}
+
 fn gen_cmd_layout(r: &mut Rng, credit_debit: bool) -> (Format, Vec<String>) {
     let header: Vec<String> = ["Date", "Payee", "Category", "Symbol", "In", "Out"].iter().map(|s| s.to_string()).collect();
     let by_label = r.chance(1, 3);
@@ -556,7 +578,9 @@ pub fn gen_cmd_case(r: &mut Rng, root: &str) -> Case17Cmd {
     }];
     let n = 1 + r.below(3);
     for _ in 0..n {
+        let written = if r.chance(1, 2) { gen_written_piece(r, &given) } else { None };
         let path = match r.below(20) {
+            _ if written.is_some() => written.unwrap(),
             0..=8 => gen_hidden_path(r, &fs, root),
             9..=17 => gen_doc_path(r, &given),
             _ => (*r.pick(&["viseca/", "zz", "OKANE"])).to_string(),
